@@ -2,6 +2,7 @@ package main
 
 import (
 	"fmt"
+	"go/token"
 	"go/types"
 	"sort"
 	"strings"
@@ -117,6 +118,9 @@ func (vc *VC) callWith(com *ssa.CallCommon, args []string, recv string, ins ssa.
 	if c := vc.r().contract; c != nil && vc.parent == nil {
 		for _, ac := range c.AssertCall {
 			if !vc.clauseOn(ac) || !calleeMatches(key, ac.Callee) {
+				continue
+			}
+			if ac.Loop > 0 && vc.callSiteOrdinal(ins, ac.Callee) != ac.Loop {
 				continue
 			}
 			env := vc.callSiteEnv(d)
@@ -948,6 +952,17 @@ func (vc *VC) siteLocals(at ssa.Instruction) func(name string) (TV, bool) {
 			return TV{}, false
 		}
 		b := at.Block()
+		if name == "$i" {
+			// the index variable of the nearest enclosing range-over-slice loop (the current index is $i + 1)
+			for blk := b; blk != nil; blk = blk.Idom() {
+				for _, ins := range blk.Instrs {
+					if phi, ok := ins.(*ssa.Phi); ok && phi.Comment == "rangeindex" {
+						return TV{T: vc.val(phi), Ty: phi.Type()}, true
+					}
+				}
+			}
+			return TV{}, false
+		}
 		for _, blk := range vc.fn.Blocks {
 			for _, ins := range blk.Instrs {
 				if al, ok := ins.(*ssa.Alloc); ok && al.Comment == name {
@@ -1021,4 +1036,36 @@ func (vc *VC) havocCallH(h string) {
 			}
 		}
 	}
+}
+
+// callSiteOrdinal numbers the call sites of a callee within the function in source order (1-based).
+func (vc *VC) callSiteOrdinal(at ssa.Instruction, callee string) int {
+	type site struct {
+		pos token.Pos
+		ins ssa.Instruction
+	}
+	var sites []site
+	for _, b := range vc.fn.Blocks {
+		for _, ins := range b.Instrs {
+			var com *ssa.CallCommon
+			switch x := ins.(type) {
+			case *ssa.Call:
+				com = x.Common()
+			case *ssa.Defer:
+				com = x.Common()
+			case *ssa.Go:
+				com = x.Common()
+			}
+			if com != nil && calleeMatches(calleeKey(com), callee) {
+				sites = append(sites, site{ins.Pos(), ins})
+			}
+		}
+	}
+	sort.Slice(sites, func(i, j int) bool { return sites[i].pos < sites[j].pos })
+	for i, s := range sites {
+		if s.ins == at {
+			return i + 1
+		}
+	}
+	return 0
 }
